@@ -79,3 +79,73 @@ Proof.
   exact (C03_go cf fname evs b p sts hdr H1 H2 H3 H4 (build_wfp cf p sts H3 Hb)).
 Qed.
 Print Assumptions C03_program.
+
+(* several inputs (file arguments read one after the other), pipelines that never stop the reader (no --take, or
+   --take behind --sort-by): the rows written are the header followed by the rows of the documented composition
+   applied to the contexts of ALL inputs in order, the record index running on across inputs and the index inside
+   the file starting again at 0 (`ctxs_of_inputs`) *)
+From Jawk Require Import FilesProofs FilesTakeProofs.
+Theorem C03_program_files_nb : forall (cf : cfg) (ins : list (option str * list ev)) (b : bool) p sts hdr,
+  c_on_error cf = OnIgnore ->
+  Forall (fun i => Forall (fun e => e <> EErr) (snd i)) ins ->
+  build_pipeline cf = Some (p, sts) ->
+  start_output p (titles expr sts []) (c_rowsep cf) = Some hdr ->
+  ChainProofs.nb expr sts = true ->
+  g_result (go cf ins b) = GOk /\
+  g_events (go cf ins b) =
+    (match hdr with [] => [] | _ => [OOut hdr] end) ++
+    emit cf p (length (titles expr sts []))
+      (Chain.run expr get sts (map (init_state expr) sts) (fst (ctxs_of_inputs cf ins 0))).
+Proof. exact go_files_ignore. Qed.
+Print Assumptions C03_program_files_nb.
+
+(* once a limiter that is not behind a sorter has answered Break, the pipeline is dead: whatever is fed to it
+   afterwards (the values of the following inputs are still parsed and handed to it) produces no row and leaves
+   what `complete` will emit unchanged -- for every well-shaped pipeline *)
+Theorem C03_break_dead : forall T, wfp expr T -> forall ss c ss1 o,
+  process expr get T ss c = (ss1, o, Break) -> dead T ss1.
+Proof. exact process_break_dead. Qed.
+Print Assumptions C03_break_dead.
+
+Theorem C03_dead_stays : forall T ss c, dead T ss ->
+  exists ss' d, process expr get T ss c = (ss', [], d) /\ dead T ss' /\
+                complete expr get T ss' = complete expr get T ss.
+Proof. exact dead_stays. Qed.
+Print Assumptions C03_dead_stays.
+
+(* end to end for ANY list of inputs and EVERY configuration that builds (with or without --take, sorted or
+   not): under --on-error=ignore and without read errors the rows written are the header followed by the rows
+   of the documented composition of stages applied to the contexts of all inputs in order *)
+Theorem C03_program_files : forall (cf : cfg) (ins : list (option str * list ev)) (b : bool) p sts hdr,
+  c_on_error cf = OnIgnore ->
+  Forall (fun i => Forall (fun e => e <> EErr) (snd i)) ins ->
+  build_pipeline cf = Some (p, sts) ->
+  start_output p (titles expr sts []) (c_rowsep cf) = Some hdr ->
+  (forall t, c_take cf = Some t -> (c_skip cf + t <= 18446744073709551615)%N) ->
+  g_result (go cf ins b) = GOk /\
+  g_events (go cf ins b) =
+    (match hdr with [] => [] | _ => [OOut hdr] end) ++
+    emit cf p (length (titles expr sts [])) (spec expr get sts (fst (ctxs_of_inputs cf ins 0))).
+Proof.
+  intros cf ins b p sts hdr H1 H2 H3 H4 Hb.
+  pose proof (build_wfp cf p sts H3 Hb) as Hw.
+  destruct (go_files_ignore_wfp cf ins b p sts hdr H1 H2 H3 H4 Hw) as [R Ev]. split; [exact R|].
+  rewrite Ev.
+  rewrite (run_spec expr get (jcmp_refl show) (jcmp_antisym show) (jcmp_trans_le show) (jcmp_eq_l show) sts Hw).
+  reflexivity.
+Qed.
+Print Assumptions C03_program_files.
+
+(* the contexts of a list of inputs split where the list splits: the second part is numbered from where the
+   first stopped; one input is the single-input function *)
+Theorem C03_inputs_app : forall cf a b idx,
+  fst (ctxs_of_inputs cf (a ++ b) idx) =
+  fst (ctxs_of_inputs cf a idx) ++
+  fst (ctxs_of_inputs cf b (idx + N.of_nat (length (fst (ctxs_of_inputs cf a idx))))).
+Proof. exact ctxs_of_inputs_app. Qed.
+Print Assumptions C03_inputs_app.
+
+Theorem C03_inputs_one : forall cf fname evs,
+  fst (ctxs_of_inputs cf [(fname, evs)] 0) = fst (fst (ctxs_of_input cf fname evs)).
+Proof. exact ctxs_of_inputs_one. Qed.
+Print Assumptions C03_inputs_one.
